@@ -323,7 +323,7 @@ impl Sim {
                     origin: o,
                     h2,
                     fut: None,
-                    flag: Arc::new(WakeFlag(AtomicBool::new(false))),
+                    flag: Arc::new(WakeFlag(AtomicBool::new(false), std::sync::atomic::AtomicU64::new(0))),
                     polled: false,
                     outcome: Outcome::Pending,
                     issue_step: step,
@@ -773,6 +773,21 @@ fn explore_state(cfg: &SimConfig, hist: &[Ev], seq_fps: &HashSet<Fp>, props: &[&
         }
     }
     let mut groups: Vec<Vec<Ev>> = pairs.into_iter().map(|(a, b)| vec![a, b]).collect();
+    if cfg.name.contains("env-triples") {
+        // two overlapping operations AND an environment event that lands anywhere between their segments
+        for i in 0..ops.len() {
+            for j in (i + 1)..ops.len() {
+                if ops[i].1 == ops[j].1 || matches!(ops[i].0, Ev::Issue { .. }) || matches!(ops[j].0, Ev::Issue { .. }) {
+                    continue;
+                }
+                for &x in &envs {
+                    if matches!(x, Ev::ConnClose(_)) {
+                        groups.push(vec![ops[i].0, ops[j].0, x]);
+                    }
+                }
+            }
+        }
+    }
     if cfg.ev_close && cfg.name.contains("fresh-close") {
         // a connection that an operation creates and registers can be closed by its peer, and another request
         // can arrive, before the same operation reaches its next critical section (the check-out that completed
@@ -824,6 +839,10 @@ fn explore_state(cfg: &SimConfig, hist: &[Ev], seq_fps: &HashSet<Fp>, props: &[&
                 let pre = checks::capture_pre(&sim);
                 let pre_ages: Vec<(usize, Duration)> = sim.snap.tokens.iter().flat_map(|t| t.idle.iter()).filter_map(|i| i.conn.parse::<usize>().ok().map(|c| (c, i.age))).collect();
                 let mut max_idle_seen = 0usize;
+                for r in sim.reqs.iter() {
+                    r.flag.1.store(0, Ordering::SeqCst);
+                }
+                let group_start_seq = super::sim::next_seq();
                 let (rep, trace) = match sim.apply_group(&group, &prefix, &mut max_idle_seen) {
                     Ok(x) => x,
                     Err(m) => {
@@ -858,6 +877,26 @@ fn explore_state(cfg: &SimConfig, hist: &[Ev], seq_fps: &HashSet<Fp>, props: &[&
                                 if destroyed {
                                     viols.push(Viol { prop: "C04", sub: "cancel-destroys-idle", msg: format!("cancelling r{r} before it used a connection destroyed healthy pooled c{c} (another operation was in progress at the same time)") });
                                 }
+                            }
+                        }
+                    }
+                }
+                // a connection the peer closed inside this step and that was delivered to a waiting request AFTER the
+                // close (the request's first wake-up of the step comes later than the close): it was handed back, or
+                // handed on, without being looked at
+                for (ri, r) in sim.reqs.iter().enumerate() {
+                    if r.fut.is_none() {
+                        continue;
+                    }
+                    if let Some(c) = r.inbox {
+                        if pre.inbox.get(ri).copied().flatten() == Some(c) {
+                            continue;
+                        }
+                        let woke = r.flag.1.load(Ordering::SeqCst);
+                        let closed = world::with(|w| w.conns.get(c).and_then(|cs| cs.close_seq));
+                        if let Some(cs) = closed {
+                            if woke != 0 && cs > group_start_seq && cs < woke {
+                                viols.push(Viol { prop: "C05", sub: "closed-before-handback", msg: format!("c{c} was closed by its peer and only then delivered to waiting r{ri} (close at sequence {cs}, the request was first woken at {woke})") });
                             }
                         }
                     }
